@@ -99,8 +99,9 @@ func (f *bmFile) get() []byte {
 }
 
 type bmHandler struct {
-	mu    sync.Mutex
-	files map[string]*bmFile
+	statSkew int // added to every size reported by Stat/Lstat: the size is a hint, the name may designate other data by now
+	mu       sync.Mutex
+	files    map[string]*bmFile
 }
 
 func newBMHandler() *bmHandler { return &bmHandler{files: map[string]*bmFile{}} }
@@ -180,8 +181,11 @@ func (h *bmHandler) Filelist(r *Request) (ListerAt, error) {
 			return nil, os.ErrNotExist
 		}
 		f.mu.Lock()
-		sz := len(f.data)
+		sz := len(f.data) + h.statSkew
 		f.mu.Unlock()
+		if sz < 0 {
+			sz = 0
+		}
 		return bmLister{vinfo{name: filepath.Base(r.Filepath), size: int64(sz)}}, nil
 	}
 	return nil, ErrSSHFxOpUnsupported
@@ -592,7 +596,29 @@ func c01Run(e *c01Env, cs c01Case, out func(fp string)) (calls int64, bad *c01Ba
 		}
 		return calls, checkContent(ref)
 
-	case "writeto":
+	case "writeto", "writeto-stale":
+		if cs.Op == "writeto-stale" {
+			// the size a by-name STAT reports differs from the open file's (cs.Len = difference): the
+			// name was re-pointed after the open, or the file is changing. WriteTo must still deliver
+			// exactly the open file's bytes.
+			if e.h != nil {
+				e.h.statSkew = cs.Len
+				defer func() { e.h.statSkew = 0 }()
+			} else {
+				other := c01FilePat(cs.L + cs.Len)
+				if cs.L+cs.Len < 0 {
+					other = nil
+				}
+				tmp := e.path + ".new"
+				if err := os.WriteFile(tmp, other, 0o644); err != nil {
+					return calls, fail("harness", "cannot write the replacement file: %v", err)
+				}
+				if err := os.Rename(tmp, e.path); err != nil {
+					return calls, fail("harness", "cannot re-point the name: %v", err)
+				}
+				checkContent = func([]byte) *c01Bad { return nil } // the name now designates the replacement
+			}
+		}
 		if _, err := f.Seek(int64(cs.Off), io.SeekStart); err != nil {
 			return calls, fail("harness", "Seek(%d) failed: %v", cs.Off, err)
 		}
@@ -606,6 +632,9 @@ func c01Run(e *c01Env, cs c01Case, out func(fp string)) (calls int64, bad *c01Ba
 		want := ref[start:]
 		out(fmt.Sprintf("WriteTo %s n=%s err=%s", chunks(len(want)), rel(int(n), len(want)), bErr3(err)))
 		d := fmt.Sprintf("WriteTo from offset %d of a %d-byte file", cs.Off, cs.L)
+		if cs.Op == "writeto-stale" {
+			d += fmt.Sprintf(" whose name reports a size of %d", cs.L+cs.Len)
+		}
 		if err != nil {
 			return calls, fail("err", "%s returned n=%d err=%v, reference n=%d err=nil", d, n, err, len(want))
 		}
@@ -724,6 +753,13 @@ func c01SmallCases(P, K int, visit func(c01Case)) {
 			if !seen[off] {
 				seen[off] = true
 				visit(c01Case{Op: "writeto", L: L, Off: off})
+			}
+		}
+		if L > P {
+			for _, skew := range []int{-(L - P - 1), -1, 1, P, 2*P + 1} {
+				if L+skew > P { // keep the concurrent path (sizes <= P fall back to the sequential one)
+					visit(c01Case{Op: "writeto-stale", L: L, Off: 0, Len: skew})
+				}
 			}
 		}
 	}
@@ -858,7 +894,7 @@ func c01Part(c *reg.Ctx) *reg.Result {
 	tick, stop := bWatchdog("C01/product", 120*time.Second)
 	defer stop()
 	report := func(cfg c01Cfg, cs c01Case, bad *c01Bad) {
-		path, isRead := "seq", cs.Op == "readat" || cs.Op == "read" || cs.Op == "writeto"
+		path, isRead := "seq", cs.Op == "readat" || cs.Op == "read" || cs.Op == "writeto" || cs.Op == "writeto-stale"
 		if isRead && cfg.CR || !isRead && cfg.CW || cs.Op == "rfwc" {
 			path = "conc"
 		}
@@ -916,7 +952,7 @@ func c01Part(c *reg.Ctx) *reg.Result {
 			n, bad := c01Run(e, cs, res.Outcome)
 			res.Evaluations += n
 			cases++
-			if cs.Len > cfg.P || cs.Len < 0 && cs.L+2 > cfg.P || cs.Op == "writeto" && cs.L-cs.Off > cfg.P {
+			if cs.Len > cfg.P || cs.Len < 0 && cs.L+2 > cfg.P || (cs.Op == "writeto" || cs.Op == "writeto-stale") && cs.L-cs.Off > cfg.P {
 				res.Distinct++
 			}
 			if cases%997 == 1 {
